@@ -5,3 +5,9 @@ pub fn run(_seed: u64, _n: usize, _tier: &str, out: &mut dyn Write) {
     writeln!(out, "STATS {{\"cases\":0}}").unwrap();
 }
 pub fn replay(_c: &Case, _out: &mut dyn Write) {}
+pub fn gen_cases(_seed: u64, _n: usize, _tier: &str, _out: &mut dyn Write) {}
+pub fn run_case(c: &Case, out: &mut dyn Write) {
+    for _ in &c.ops {
+        writeln!(out, "ok").unwrap();
+    }
+}
